@@ -1,17 +1,20 @@
 import Rs1090.Driver.Common
 import Rs1090.Model.Snapshot
 import Rs1090.Model.SnapshotView
+import Rs1090.Driver.Pipeline
 namespace Rs1090.Driver.C12
 open Rs1090 Rs1090.Model.Snapshot Rs1090.Model.SnapshotView Rs1090.Driver
 
 /-- `snap <record> <record> …` : the table after the history, entries in key order
     (record tokens: Model/Snapshot.lean, "Line protocol").
     `snapf <ts>:<framehex>[:<lat>,<lon>] …` : the same from the received frames — decoder model,
-    `viewOfJson`, `update` (Model/SnapshotView.lean, `runFrames`). -/
+    `viewOfJson`, `update` (Model/SnapshotView.lean, `runFrames`).
+    `snapp [@<lat>,<lon>] <t>:<framehex> …` : the same from frames and time stamps ALONE — the positions come
+    from the composed C06 model (Model/Pipeline.lean `runPipeline`; Driver/Pipeline.lean). -/
 def handle : List String → Option String
   | "snap" :: recs => (recs.mapM parseRecord).map fun h => showTable (run h)
   | "snapf" :: rxs => (rxs.mapM parseRx).map fun h => showTable (runFrames h)
-  | _ => none
+  | ws => Rs1090.Driver.Pipeline.handle ws
 
 end Rs1090.Driver.C12
 
